@@ -172,7 +172,10 @@ impl<'i> EndTag<'i> {
             output_handler(raw);
         } else {
             output_handler(b"</");
-            output_handler(&self.name);
+            // NOTE: a zero-length chunk is the sink's end-of-output marker
+            if !self.name.is_empty() {
+                output_handler(&self.name);
+            }
             output_handler(b">");
         }
         Ok(())
